@@ -335,4 +335,95 @@ func (*ExprBridge).preprocessCached
   modifies *
   before Load preprocess-cache-read-under-the-exact-expression-text: $arg1 == boxof(expression, string)
   before Store preprocess-cache-written-under-the-exact-expression-text: $arg1 == boxof(expression, string)
+
+// ---------------------------------------------------------------- C14: analytic state machines
+func analyticToInt
+  props C14
+  option pure
+  ensures ints: hasType(v, int) || hasType(v, int32) || hasType(v, int64) ==> result1 && result0 == intval(v)
+  ensures others: !(hasType(v, int) || hasType(v, int32) || hasType(v, int64) || hasType(v, float64)) ==> !result1
+
+func AnalyticToBool
+  props C14
+  option pure
+  ensures bools: hasType(v, bool) ==> result == boolval(v)
+  ensures null-is-false: v == nil ==> !result
+
+func toFloat64Generic
+  props C14
+  option pure
+  ensures numbers: hasType(v, int) || hasType(v, int32) || hasType(v, int64) ==> result1 && result0 == float64(intval(v))
+  ensures floats: hasType(v, float64) ==> result1 && result0 == realval(v)
+  ensures others: !(hasType(v, int) || hasType(v, int32) || hasType(v, int64) || hasType(v, float64)) ==> !result1
+
+extern analyticEqual
+  props C14
+  option pure
+
+pred lagOffset(args) := ite(len(args) >= 2 && second(analyticToInt(args[1])) && analyticToInt(args[1]) > 0, analyticToInt(args[1]), 1)
+pred lagSkips(args) := ite(len(args) >= 4, AnalyticToBool(args[3]), true) && args[0] == nil
+
+func (*lagState).Apply
+  props C14
+  modifies s.history
+  ensures no-arguments-no-effect: len(args) == 0 ==> result == nil && s.history == old(s.history)
+  ensures value-offset-rows-back: len(args) > 0 && len(old(s.history)) >= lagOffset(args) ==> result == old(s.history)[len(old(s.history)) - lagOffset(args)]
+  ensures default-before-enough-history: len(args) >= 3 && len(old(s.history)) < lagOffset(args) ==> result == args[2]
+  ensures null-without-default: len(args) > 0 && len(args) < 3 && len(old(s.history)) < lagOffset(args) ==> result == nil
+  ensures skipped-null-leaves-history: len(args) > 0 && lagSkips(args) ==> s.history == old(s.history)
+  ensures history-keeps-the-last-offset-values: len(args) > 0 && !lagSkips(args) ==> len(s.history) == ite(len(old(s.history)) + 1 > lagOffset(args), lagOffset(args), len(old(s.history)) + 1) && s.history[len(s.history) - 1] == args[0] && forall(i, 0, len(s.history) - 1, s.history[i] == old(s.history)[len(old(s.history)) - (len(s.history) - 1) + i])
+
+func (*lagState).Reset
+  props C14
+  modifies s.history
+  ensures len(s.history) == 0
+
+func (*latestState).Apply
+  props C14
+  modifies s.latest, s.hasVal
+  ensures non-null-input-becomes-latest: len(args) > 0 && args[0] != nil ==> s.latest == args[0] && s.hasVal && result == args[0]
+  ensures null-input-keeps-latest: !(len(args) > 0 && args[0] != nil) ==> s.latest == old(s.latest) && s.hasVal == old(s.hasVal)
+  ensures latest-so-far: !(len(args) > 0 && args[0] != nil) && old(s.hasVal) ==> result == old(s.latest)
+  ensures default-before-any-value: !(len(args) > 0 && args[0] != nil) && !old(s.hasVal) ==> result == ite(len(args) >= 2, args[1], nil)
+
+func (*latestState).Reset
+  props C14
+  modifies s.latest, s.hasVal
+  ensures !s.hasVal && s.latest == nil
+
+func (*changedColState).Apply
+  props C14
+  modifies s.prev, s.hasPrev
+  ensures ignored-null-changes-nothing: len(args) >= 1 && AnalyticToBool(args[0]) && (len(args) < 2 || args[1] == nil) ==> result == nil && s.prev == old(s.prev) && s.hasPrev == old(s.hasPrev)
+  ensures first-or-changed-value-is-reported: !(len(args) >= 1 && AnalyticToBool(args[0]) && (len(args) < 2 || args[1] == nil)) ==> s.hasPrev && s.prev == ite(len(args) >= 2, args[1], nil) && result == ite(!old(s.hasPrev) || !analyticEqual(old(s.prev), ite(len(args) >= 2, args[1], nil)), ite(len(args) >= 2, args[1], nil), nil)
+
+func (*changedColState).Reset
+  props C14
+  modifies s.prev, s.hasPrev
+  ensures !s.hasPrev && s.prev == nil
+
+func (*accState).resetState
+  props C14
+  modifies s.sum, s.count, s.num, s.hasNum, s.started
+  ensures everything-cleared: s.sum == 0.0 && s.count == 0 && s.num == 0.0 && !s.hasNum && !s.started
+
+func (*accState).result
+  props C14
+  ensures acc-sum: s.kind == "acc_sum" ==> result == boxof(s.sum, float64)
+  ensures acc-count: s.kind == "acc_count" ==> result == boxof(s.count, int64)
+  ensures acc-avg: s.kind == "acc_avg" ==> result == ite(s.count == 0, nil, boxof(s.sum / float64(s.count), float64))
+  ensures acc-max-min: s.kind == "acc_max" || s.kind == "acc_min" ==> result == ite(s.hasNum, boxof(s.num, float64), nil)
+
+func (*accState).Apply
+  props C14
+  modifies s.sum, s.count, s.num, s.hasNum, s.started
+  ensures reset-argument-clears-the-accumulation: len(args) >= 3 && AnalyticToBool(args[2]) ==> s.sum == 0.0 && s.count == 0 && s.num == 0.0 && !s.hasNum && !s.started
+  ensures not-started-rows-are-not-counted: !(len(args) >= 3 && AnalyticToBool(args[2])) && len(args) >= 2 && !AnalyticToBool(args[1]) && !old(s.started) ==> s.sum == old(s.sum) && s.count == old(s.count) && s.num == old(s.num) && s.hasNum == old(s.hasNum) && !s.started
+  ensures numeric-input-accumulates: !(len(args) >= 3 && AnalyticToBool(args[2])) && !(len(args) >= 2 && !AnalyticToBool(args[1]) && !old(s.started)) && len(args) > 0 && second(toFloat64Generic(args[0])) ==> s.count == old(s.count) + 1 && s.hasNum && (s.kind == "acc_sum" || s.kind == "acc_avg" ==> s.sum == old(s.sum) + toFloat64Generic(args[0])) && (s.kind == "acc_max" ==> s.num == ite(!old(s.hasNum) || toFloat64Generic(args[0]) > old(s.num), toFloat64Generic(args[0]), old(s.num))) && (s.kind == "acc_min" ==> s.num == ite(!old(s.hasNum) || toFloat64Generic(args[0]) < old(s.num), toFloat64Generic(args[0]), old(s.num)))
+  ensures null-input-is-skipped: !(len(args) >= 3 && AnalyticToBool(args[2])) && len(args) > 0 && args[0] == nil ==> s.sum == old(s.sum) && s.count == old(s.count) && s.num == old(s.num) && s.hasNum == old(s.hasNum)
+
+func (*accState).Reset
+  props C14
+  modifies s.kind, s.sum, s.count, s.num, s.hasNum, s.started
+  ensures keeps-only-the-kind: s.kind == old(s.kind) && s.sum == 0.0 && s.count == 0 && !s.hasNum && !s.started
 @*/
